@@ -169,7 +169,7 @@ func (g *bodyGen) block(b *strings.Builder, lvl, n int) {
 
 func (g *bodyGen) stmt(b *strings.Builder, lvl int) {
 	deep := g.depth >= 3
-	k := g.intn(0, 21, "st")
+	k := g.intn(0, 23, "st")
 	if deep && k >= 4 && k <= 14 {
 		k = k % 4
 	}
@@ -397,6 +397,38 @@ func (g *bodyGen) stmt(b *strings.Builder, lvl int) {
 		g.locals++
 		v := fmt.Sprintf("p%d", g.locals)
 		fmt.Fprintf(b, "%s%s := pair{%s, %s}\n%s%s.bump(%s)\n%str(\"pair\", %s.sum())\n", in, v, g.intExpr(0), g.intExpr(0), in, v, g.intExpr(0), in, v)
+	case 20: // nil values of various types: typed nil in an interface, nil slice / map / func, through conversions
+		g.shapes["nil-values"] = true
+		g.locals++
+		n := g.locals
+		switch g.intn(0, 5, "nilkind") {
+		case 0: // a typed nil pointer stored in an interface is not a nil interface
+			fmt.Fprintf(b, "%svar e%d error = (*perr)(nil)\n%sif e%d != nil {\n%s\ttrs(\"typed-nil \" + e%d.Error())\n%s} else {\n%s\ttr(\"nil-iface\", %s)\n%s}\n", in, n, in, n, in, n, in, in, g.intExpr(0), in)
+		case 1: // the same through a conversion of a nil constant to a named pointer type
+			fmt.Fprintf(b, "%svar a%d any = perrp(nil)\n%sif a%d == nil {\n%s\ttr(\"any-nil\", 1)\n%s} else if p, ok := a%d.(perrp); ok && p == nil {\n%s\ttr(\"any-typed-nil\", %s)\n%s}\n", in, n, in, n, in, in, n, in, g.intExpr(0), in)
+		case 2: // nil slice of a named type: length, append, comparison
+			fmt.Fprintf(b, "%sys%d := intlist(nil)\n%sif ys%d == nil {\n%s\tys%d = append(ys%d, %s)\n%s}\n%str(\"intlist\", len(ys%d)+ys%d.total())\n", in, n, in, n, in, n, n, g.intExpr(1), in, in, n, n)
+		case 3: // nil func value and nil map
+			fmt.Fprintf(b, "%sfn%d := (func(int) int)(nil)\n%sif %s {\n%s\tfn%d = func(v int) int { return v + %d }\n%s}\n%sif fn%d != nil {\n%s\ttr(\"fn\", fn%d(%s))\n%s} else {\n%s\ttr(\"fn-nil\", len(map[string]int(nil)))\n%s}\n", in, n, in, g.boolExpr(0), in, n, g.intn(1, 9, "add"), in, in, n, in, n, g.intExpr(0), in, in, in)
+		case 4: // an interface holding nil returned from a helper and compared
+			fmt.Fprintf(b, "%sif err%d := mayFail(%s); err%d != nil {\n%s\ttrs(\"failed \" + err%d.Error())\n%s} else {\n%s\ttr(\"ok\", %s)\n%s}\n", in, n, g.intExpr(1), n, in, n, in, in, g.intExpr(0), in)
+		default: // nil error assigned conditionally, then inspected with a type switch
+			fmt.Fprintf(b, "%svar ev%d error\n%sif %s {\n%s\tev%d = (*perr)(nil)\n%s}\n%sswitch v := ev%d.(type) {\n%scase nil:\n%s\ttr(\"sw-nil\", 0)\n%scase *perr:\n%s\ttrs(\"sw-perr \" + v.Error())\n%s}\n", in, n, in, g.boolExpr(0), in, n, in, in, n, in, in, in, in, in)
+		}
+	case 21: // conversions between named and unnamed types
+		g.shapes["conversions"] = true
+		g.locals++
+		n := g.locals
+		switch g.intn(0, 3, "convkind") {
+		case 0:
+			fmt.Fprintf(b, "%sc%d, w%d := celsius(%s), %s\n%str(\"conv\", int(c%d.double())+int(int8(w%d)))\n", in, n, n, g.intExpr(1), g.intExpr(1), in, n, n)
+		case 1:
+			fmt.Fprintf(b, "%sbs%d := []byte(%s)\n%sif len(bs%d) > 0 {\n%s\tbs%d[0] ^= 1\n%s}\n%strs(ascii(string(bs%d)))\n", in, n, g.strExpr(1), in, n, in, n, in, in, n)
+		case 2:
+			fmt.Fprintf(b, "%sil%d := intlist(xs)\n%str(\"conv-total\", il%d.total())\n%sw%d, fl%d := %s, float64(%s)\n%sua%d := uint8(w%d)\n%str(\"conv-u8\", int(ua%d)+int(fl%d*1.5))\n", in, n, in, n, in, n, n, g.intExpr(1), g.intExpr(0), in, n, n, in, n, n)
+		default:
+			fmt.Fprintf(b, "%svar st%d interface{ Error() string } = &perr{code: %s}\n%svar er%d error = st%d\n%strs(er%d.Error())\n", in, n, g.intExpr(0), in, n, n, in, n)
+		}
 	default:
 		fmt.Fprintf(b, "%str(%q, %s)\n", in, "d", g.intExpr(2))
 	}
@@ -623,6 +655,41 @@ var mp = map[string]int{"a": 1, "bb": 2, "ccc": 3}
 type recv struct{ base int }
 
 type pair struct{ x, y int }
+
+type perr struct{ code int }
+
+func (p *perr) Error() string {
+	if p == nil {
+		return "nil-perr"
+	}
+	return "perr" + strconv.Itoa(p.code)
+}
+
+type perrp *perr
+
+type intlist []int
+
+func (l intlist) total() int {
+	t := 0
+	for _, v := range l {
+		t += v
+	}
+	return t
+}
+
+type celsius int
+
+func (c celsius) double() celsius { return c * 2 }
+
+func mayFail(n int) error {
+	if n%3 == 0 {
+		return nil
+	}
+	if n%3 == 1 {
+		return (*perr)(nil)
+	}
+	return &perr{code: n}
+}
 
 func (p *pair) bump(d int) { p.x += d; p.y -= d }
 func (p pair) sum() int    { return p.x*3 + p.y }
